@@ -61,7 +61,9 @@ func parseOps(f []string) ([]op, error) {
 }
 
 type corpusCase struct {
-	kind  string // frames | transp | bp
+	kind  string // frames | transp | bp | shared
+	owner []int  // shared: owner of each breakpoint
+	sops  []string
 	fs    flowSpec
 	nsess int
 	ops   []op
@@ -75,6 +77,26 @@ func parseCorpusLine(l string) (corpusCase, error) {
 	}
 	cc := corpusCase{kind: f[0]}
 	switch f[0] {
+	case "shared": // shared <owner of bp 0>,<owner of bp 1>,… | <ops of harness/c19/shared.go>
+		parts := strings.Split(strings.Join(f[1:], " "), "|")
+		if len(parts) != 2 {
+			return cc, fmt.Errorf("bad corpus line %q", l)
+		}
+		for _, x := range strings.Split(strings.TrimSpace(parts[0]), ",") {
+			if x != "0" && x != "1" {
+				return cc, fmt.Errorf("bad owner %q in %q", x, l)
+			}
+			cc.owner = append(cc.owner, atoi(x))
+		}
+		for _, o := range strings.Fields(parts[1]) {
+			switch strings.Split(o, ":")[0] {
+			case "pkt", "rm", "rmnil", "add", "unwatch", "watch", "aclose", "dclose", "bclose", "pause", "step":
+				cc.sops = append(cc.sops, o)
+			default:
+				return cc, fmt.Errorf("bad op %q in %q", o, l)
+			}
+		}
+		return cc, nil
 	case "bp":
 		for _, o := range f[1:] {
 			switch name, _ := splitOp(o); name {
